@@ -37,3 +37,18 @@ for hs, tiers in [(16, ("quick", "thorough")), (32, ("thorough",))]:
         stubs=["lzma_crc32 abstracted to one arbitrary value seen by encoder and spec parser (real CRC32: C14 and stream_flags obligation)"],
         desc="every lzma_block accepted by lzma_block_header_size (version 0/1, sizes known/unknown over the VLI range, chains [LZMA2] / [delta|BCJ(8 ids, with/without start offset), LZMA2] with symbolic options): the encoded header is valid per the independent spec parser and its fields equal the struct's (sizes, filter ids, delta distance, BCJ offset, LZMA2 dictionary size >= the encoder's)",
         bounds_q="headers up to %d bytes, 1-2 filters" % hs))
+IDXU = [S + x for x in ["common/common.c", "common/vli_encoder.c", "common/vli_size.c"]]
+OBLIGATIONS += [
+    Obligation(name="index_encode_sliced", src="idxenc.c", func="harness_index_encode_sliced", qdefs=["KREC=1"], tdefs=["KREC=1"], tiers=("thorough",), mem_gb=16,
+        unwind=48, units=IDXU, flags=FL, timeout_q=280, timeout_t=1800, unwindset=[("index_encode", r"while \(\*out_pos < out_size\)", (14, 22)), ("index_encode", r"while \(\+\+coder->pos < 4\)", 5), ("lzma_vli_encode", "", 10), ("vstub_crc32", "", (28, 46))],
+        functions=["index_encode", "lzma_index_encoder_init", "lzma_vli_encode"],
+        stubs=["lzma_index accessors used by the encoder (block_count, iter_init, iter_next, padding_size, size) = K-record model with symbolic sizes (index.c is C13's subject)",
+               "lzma_crc32 = chaining hash (h(a||b,c)==h(b,h(a,c))) so that 'CRC over exactly the preceding bytes, once' is a structural check"],
+        desc="the streaming Index encoder with the output cut at three symbolic positions: the concatenated bytes are a valid Index per the spec parser (indicator, minimal count, truthful records, 0-3 zero padding bytes, CRC32 over exactly the preceding bytes), their number equals lzma_index_size(), independent of the slicing",
+        bounds_q="0-1 records (quick) / 0-2 (thorough), sizes over the whole VLI range, 4 calls"),
+    Obligation(name="index_buffer_encode", src="idxenc.c", func="harness_index_buffer_encode", qdefs=["KREC=1"], tdefs=["KREC=1"], tiers=("thorough",), mem_gb=16,
+        unwind=70, units=IDXU, flags=FL, timeout_q=280, timeout_t=1800, unwindset=[("index_encode", r"while \(\*out_pos < out_size\)", (14, 22)), ("index_encode", r"while \(\+\+coder->pos < 4\)", 5), ("lzma_vli_encode", "", 10), ("vstub_crc32", "", (28, 46))],
+        functions=["lzma_index_buffer_encode", "index_encode"], stubs=["same index model and chaining-hash CRC as index_encode_sliced"],
+        desc="single-call Index encoding: BUF_ERROR with nothing written when space < lzma_index_size(), otherwise exactly that many bytes forming a valid Index",
+        bounds_q="0-1 records (quick) / 0-2 (thorough)"),
+]
